@@ -365,4 +365,45 @@ example : bothAgreeQ { rules := [{ name := "Model", body := (Expr.seq [Expr.asgn
     { name := "L", body := (Expr.rep .plus (Expr.str 6 "x" false) (some { isRe := false, tok := 7, text := "," }) false false) }] }
     "x,x,end" ["x", ",", "end"] = true := by decide +kernel
 
+/-! ### W01: the end of an unordered group with a separator (documented semantics, `Sem.pUnord`)
+
+When no further element can be taken, every remaining element must match *nothing* there: a mandatory element is not
+dropped because it happens to match without its separator, and a nullable element that matches something where the
+separator is absent is not "absent".  Both sides (mirror of textX / Arpeggio, documented semantics) on the two
+minimal inputs of the false alarm corrected in W01 (notes/C01.md). -/
+
+/-- does the documented semantics accept the text? -/
+def semAccepts (g : Gram) (input : String) (lits : List String) : Bool :=
+  match Sem.eval (Sem.mkEnv g {} input.toList.toArray (litRows input lits) #[] #[]) 300 with
+  | .model _ => true
+  | _ => false
+
+/-- `Model: R | '(' ',' 'z'; R: ('(' ',')#['::'];` (literals `(` `,` `z` `::` = tokens 6–9) -/
+def exUnordSkip : Gram :=
+  { rules := [{ name := "Model", body := (Expr.alt [Expr.ref "R" false,
+      Expr.seq [Expr.str 6 "(" false, Expr.str 7 "," false, Expr.str 8 "z" false] false] false) },
+    { name := "R", body := (Expr.unord [Expr.str 6 "(" false, Expr.str 7 "," false]
+      (some { isRe := false, tok := 9, text := "::" }) false false) }] }
+
+/-- `Model: R ','* 'end'; R: ('if' xs*=',')#[';'];` (literals `if` `,` `end` `;` = tokens 6–9) -/
+def exUnordNoSep : Gram :=
+  { rules := [{ name := "Model", body := (Expr.seq [Expr.ref "R" false,
+      Expr.rep .star (Expr.str 7 "," false) none false false, Expr.str 8 "end" false] false) },
+    { name := "R", body := (Expr.unord [Expr.str 6 "if" false,
+      Expr.asgn "xs" .star (Expr.str 7 "," false) none false false]
+      (some { isRe := false, tok := 9, text := ";" }) false false) }] }
+
+-- `( , z`: `R` must fail (`','` is mandatory and `::` is absent), the second alternative accepts the text
+example : semAccepts exUnordSkip "( , z" ["(", ",", "z", "::"] = true := by decide +kernel
+example : bothAgree exUnordSkip "( , z" ["(", ",", "z", "::"] = true := by decide +kernel
+example : bothAgree exUnordSkip "( :: ," ["(", ",", "z", "::"] = true := by decide +kernel
+example : semAccepts exUnordSkip "( ," ["(", ",", "z", "::"] = false := by decide +kernel
+-- `if , , end`: the `,`s are the group's element `xs*=','` without its separator `;`
+example : semAccepts exUnordNoSep "if , , end" ["if", ",", "end", ";"] = false := by decide +kernel
+example : bothAgree exUnordNoSep "if , , end" ["if", ",", "end", ";"] = true := by decide +kernel
+example : semAccepts exUnordNoSep "if ; , , end" ["if", ",", "end", ";"] = true := by decide +kernel
+example : bothAgree exUnordNoSep "if ; , , end" ["if", ",", "end", ";"] = true := by decide +kernel
+example : semAccepts exUnordNoSep "if end" ["if", ",", "end", ";"] = true := by decide +kernel
+example : bothAgree exUnordNoSep ", ; if end" ["if", ",", "end", ";"] = true := by decide +kernel
+
 end Tx
